@@ -71,6 +71,47 @@ def run(chk, tier):
                             "%s:%d" % (a["file"], a["line"]))
                 elif re.search(r"\bf(64|32)\b", f["ty"]):
                     chk.ok("R19.2", "%s.%s" % (key, f["name"]))
+    # R19.5 declared codecs: the reviewed table of every non-default codec in the closure (a new / changed codec must be reviewed:
+    # a narrower range makes serialization fail, an asymmetric hand-written codec reads back a different value)
+    chk.rule("R19.5", "the only non-default codecs in Program's serde closure are the reviewed ones: TimeStamp = chrono ts_milliseconds (both directions), "
+                      "Duration = serde_with DurationMilliSeconds<i64> (both directions); no container-level into / from / try_from / remote conversion and no hand-written Serialize / Deserialize impl")
+    CODECS = {
+        "rscel::types::cel_value::CelValue::TimeStamp": r'^with\s*=\s*"ts_milliseconds"$',
+        "rscel::types::cel_value::CelValue::Duration": r'^serialize_with\s*=\s*"DurationMilliSeconds::<i64>::serialize_as",\s*deserialize_with\s*=\s*"DurationMilliSeconds::<i64>::deserialize_as"$',
+    }
+    seen_codecs = set()
+    for a in adts:
+        cont = " ".join(a["attrs"])
+        for m_ in re.finditer(r"serde\(([^)]*)\)", cont):
+            body_ = m_.group(1)
+            if re.search(r"\b(into|from|try_from|remote|with|serialize_with|deserialize_with)\b", body_):
+                chk.bad("R19.5", "%s|container codec" % a["path"], "%s converts through a hand-written representation (#[serde(%s)]): encoder and decoder are no longer derived from one definition and must be reviewed as a pair" % (a["path"], body_.strip()), a["file"])
+        for v in a["variants"]:
+            for where, attrs in [("%s::%s" % (a["path"], v["name"]), v["attrs"])] + [("%s::%s.%s" % (a["path"], v["name"], f["name"]), f["attrs"]) for f in v["fields"]]:
+                for at in attrs:
+                    for m_ in re.finditer(r"serde\((.*)\)\]?$", at, re.S):
+                        body_ = re.sub(r"\s+", " ", m_.group(1)).strip()
+                        if re.search(r"\b(with|serialize_with|deserialize_with|into|from|try_from|getter|bound|flatten|rename|alias|default)\b", body_):
+                            want = CODECS.get(where)
+                            seen_codecs.add(where)
+                            if want and re.match(want, body_):
+                                chk.ok("R19.5", where, body_)
+                            else:
+                                chk.bad("R19.5", where, "%s is serialized with #[serde(%s)], reviewed codec: %s (millisecond resolution over the whole representable range)" % (where, body_, want or "serde's derived default"), a["file"])
+    for where in CODECS:
+        if where not in seen_codecs:
+            chk.bad("R19.5", where, "%s lost its declared millisecond codec" % where, "rscel/src/types/cel_value.rs")
+    # hand-written Serialize / Deserialize impls on closure types
+    closure_paths = set(a["path"] for a in adts)
+    for im in F.impls:
+        if im.get("pkg") != "rscel" or not im.get("of_trait"):
+            continue
+        tr = im.get("trait", "")
+        if re.search(r"_serde::(Serialize|Deserialize)", tr) or re.search(r"^serde::(Serialize|Deserialize)", tr):
+            selfty = im.get("self", "")
+            if selfty in closure_paths and not any("automaticallyderived" in x.lower().replace("_", "") for x in im.get("attrs", [])):
+                chk.bad("R19.5", "%s|manual %s" % (selfty, tr.split("::")[-1]), "%s implements %s by hand: not covered by the derived-codec argument" % (selfty, tr), im.get("file", ""))
+    # conversions used by container-level codecs would show up as From/TryFrom<String> impls on closure types
     # R19.4 binding entry points
     want = [("rscel_python", r"py_cel_program::PyCelProgram::(add_serialized|serialize_to)_(json|bincode)$"),
             ("rscel_wasm", r"cel_program::WasmCelProgram::(add_serialized|serialize_to)_(json|bincode)$")]
